@@ -154,6 +154,7 @@ type HarnessRun struct {
 	ReachObserve map[string]map[string]uint64
 	ReachTrail   map[string][]int64
 	ReachSched   map[string][]schedStep
+	PossDecl     map[string]map[string]uint64 // Possible labels -> model of the first path that declared them
 	Funcs        map[string]bool
 	Intrinsics   map[string]bool
 	Inconclusive []string
@@ -169,7 +170,7 @@ type HarnessRun struct {
 
 func newHarnessRun(name string) *HarnessRun {
 	return &HarnessRun{Name: name, ViolCount: map[string]int{}, Reached: map[string]bool{}, ReachDecl: map[string]bool{},
-		ReachModel: map[string]map[string]uint64{}, ReachObserve: map[string]map[string]uint64{}, ReachTrail: map[string][]int64{}, ReachSched: map[string][]schedStep{},
+		ReachModel: map[string]map[string]uint64{}, ReachObserve: map[string]map[string]uint64{}, ReachTrail: map[string][]int64{}, ReachSched: map[string][]schedStep{}, PossDecl: map[string]map[string]uint64{},
 		Funcs: map[string]bool{}, Intrinsics: map[string]bool{}, Bounds: map[string]int64{}}
 }
 
